@@ -16,6 +16,7 @@
 from __future__ import annotations
 
 import asyncio
+import os
 import pathlib
 from asyncio.log import logger
 from collections.abc import AsyncIterable
@@ -194,9 +195,15 @@ class Controller(AbstractController):
         if not path.parent.exists():
             path.parent.mkdir(parents=True, exist_ok=True)
 
+        # Write to a temporary sibling first and move it over the target so an
+        # interrupted save can never destroy the previously saved pairings.
+        tmp_path = path.with_name(f".{path.name}.tmp")
         try:
-            with open(filename, mode="w", encoding="utf-8") as output_fp:
+            with open(tmp_path, mode="w", encoding="utf-8") as output_fp:
                 output_fp.write(hkjson.dumps_indented(data))
+                output_fp.flush()
+                os.fsync(output_fp.fileno())
+            os.replace(tmp_path, path)
         except PermissionError:
             raise ConfigSavingError(f'Could not write "{filename}" due to missing permissions')
         except FileNotFoundError:
